@@ -14,6 +14,9 @@ and checkpoint failures; including the partition's first record at offset 0.
 * `clean_cycle_delivers` (progress, one-cycle lemma): a cycle in which no step fails leaves
   every record of the leased partition in the sink.
 * `offset_zero_delivered`: in particular the record at offset 0, with either store.
+* `checkpoint_covered_stat_skip`, `clean_cycle_delivers_stat_skip`, `skip_le_loses_record`: a loop
+  that skips the download of a segment by its listed `MaxOffset` statistic keeps both theorems when
+  the comparison is strict and loses a single-record segment when it is off by one.
 * `continue_loses_records`, `lfs_drop_loses_records`, `noop_drops_offset_zero`: the code before
   the fixes violates the property (concrete witnesses, replayed on the real code by the check).
 -/
@@ -676,5 +679,179 @@ example : GoodHistory [] [.cycle [⟨0, [0, 1]⟩] ⟨false, [], []⟩, .leaseLo
     · have h' : (0 : Nat) ≠ tp := fun e => h e.symm
       simp [offsOf, h']
 
+/-! ### a statistics fast path: `MaxOffset < next` is safe, `MaxOffset <= next` is not -/
+
+theorem processSkip_cons (rule : Option Nat → Int → Bool) (k : StoreKind) (tp : Nat) (ss : SSeg) (rest : List SSeg)
+    (fs : List Fault) (s : St) :
+    processSkip rule k tp (ss :: rest) fs s =
+      if (segBodySkip rule k tp ss (fs.headD .none) s).2
+      then processSkip rule k tp rest fs.tail (segBodySkip rule k tp ss (fs.headD .none) s).1
+      else (segBodySkip rule k tp ss (fs.headD .none) s).1 := rfl
+
+theorem process_cons' (k : StoreKind) (tp : Nat) (seg : Seg) (rest : List Seg) (f : Fault) (fs : List Fault) (s : St) :
+    process k tp (seg :: rest) (f :: fs) s =
+      if (segBody k tp seg f s).2 then process k tp rest fs (segBody k tp seg f s).1
+      else (segBody k tp seg f s).1 := rfl
+
+/-- a segment whose records are all at or below the checkpoint is a no-op of a fault-free body -/
+theorem segBody_covered_noop (k : StoreKind) (tp : Nat) (seg : Seg) (s : St) (h : seg.tp = tp)
+    (hall : ∀ o ∈ seg.offs, (o : Int) ≤ load k s tp) : segBody k tp seg Fault.none s = (s, true) := by
+  rcases segBody_clean k tp seg s h with ⟨_, e⟩ | ⟨hne, _⟩
+  · exact e
+  · exfalso
+    apply hne
+    rw [List.eq_nil_iff_forall_not_mem]
+    intro o ho
+    have := mem_keep.mp ho
+    have := hall o this.1
+    omega
+
+/-- **the strict fast path is a refinement**: with sound statistics, one pass of the loop with
+`MaxOffset < checkpoint+1 → continue` is a pass of the plain loop under some failure oracle
+(skipped segments behave like fault-free ones); failure-free oracles stay failure-free. -/
+theorem processSkip_refines (k : StoreKind) (tp : Nat) (sss : List SSeg) :
+    ∀ (fs : List Fault) (s : St), StatsOK sss →
+      ∃ fs', processSkip skipLt k tp sss fs s = process k tp (sss.map (·.seg)) fs' s ∧
+        (noFaults fs → noFaults fs') := by
+  induction sss with
+  | nil => intro fs s _; exact ⟨[], rfl, fun _ => by intro f hf; simp at hf⟩
+  | cons ss rest ih =>
+    intro fs s hst
+    have hst' : StatsOK rest := fun x hx => hst x (List.mem_cons_of_mem _ hx)
+    rw [processSkip_cons]
+    simp only [List.map_cons]
+    by_cases htp : ss.seg.tp = tp
+    · by_cases hl : fs.headD .none = Fault.load
+      · -- LoadOffset fails: both loops are left
+        refine ⟨[Fault.load], ?_, ?_⟩
+        · have e1 : segBodySkip skipLt k tp ss (fs.headD .none) s = (s, false) := by
+            unfold segBodySkip; rw [if_neg (by simp [htp]), if_pos hl]
+          have e2 : segBody k tp ss.seg Fault.load s = (s, false) := by
+            unfold segBody; rw [if_neg (by simp [htp]), if_pos rfl]
+          rw [e1, process_cons]; simp [e2]
+        · intro hnf
+          have := noFaults_head hnf
+          rw [this] at hl; cases hl
+      · by_cases hr : skipLt ss.maxOff (load k s tp) = true
+        · -- the fast path: nothing is downloaded; the plain loop without a fault does nothing either
+          have e1 : segBodySkip skipLt k tp ss (fs.headD .none) s = (s, true) := by
+            unfold segBodySkip; rw [if_neg (by simp [htp]), if_neg hl, if_pos hr]
+          have hall : ∀ o ∈ ss.seg.offs, (o : Int) ≤ load k s tp := by
+            intro o ho
+            unfold skipLt at hr
+            cases hm : ss.maxOff with
+            | none => rw [hm] at hr; simp at hr
+            | some m =>
+              rw [hm] at hr
+              have := hst ss (by simp) m hm o ho
+              simp at hr
+              omega
+          have e2 := segBody_covered_noop k tp ss.seg s htp hall
+          obtain ⟨fs', he, hn⟩ := ih fs.tail s hst'
+          refine ⟨Fault.none :: fs', ?_, ?_⟩
+          · rw [e1, process_cons]; simp [e2, he]
+          · intro hnf f hf
+            rcases List.mem_cons.mp hf with rfl | h
+            · rfl
+            · exact hn (noFaults_tail hnf) f h
+        · -- no fast path: the body of the plain loop
+          have e1 : segBodySkip skipLt k tp ss (fs.headD .none) s = segBody k tp ss.seg (fs.headD .none) s := by
+            unfold segBodySkip; rw [if_neg (by simp [htp]), if_neg hl, if_neg hr]
+          rw [e1]
+          obtain ⟨fs', he, hn⟩ := ih fs.tail (segBody k tp ss.seg (fs.headD .none) s).1 hst'
+          refine ⟨fs.headD .none :: fs', ?_, ?_⟩
+          · rw [process_cons']
+            by_cases hb : (segBody k tp ss.seg (fs.headD .none) s).2 = true
+            · rw [if_pos hb, if_pos hb]; exact he
+            · rw [if_neg hb, if_neg hb]
+          · intro hnf f hf
+            rcases List.mem_cons.mp hf with rfl | h
+            · exact noFaults_head hnf
+            · exact hn (noFaults_tail hnf) f h
+    · have e1 : segBodySkip skipLt k tp ss (fs.headD .none) s = (s, true) := by
+        unfold segBodySkip; rw [if_pos htp]
+      obtain ⟨fs', he, hn⟩ := ih fs.tail s hst'
+      refine ⟨Fault.none :: fs', ?_, ?_⟩
+      · rw [e1, process_cons, segBody_other k tp ss.seg _ s htp]; simp [he]
+      · intro hnf f hf
+        rcases List.mem_cons.mp hf with rfl | h
+        · rfl
+        · exact hn (noFaults_tail hnf) f h
+
+theorem cycleSkip_refines (k : StoreKind) (sss : List SSeg) (o : Oracle) (s : St) (hst : StatsOK sss) :
+    ∃ o' : Oracle, cycleSkip skipLt k sss o s = cycle k (sss.map (·.seg)) o' s ∧
+      o'.listFail = o.listFail ∧ o'.claimFail = o.claimFail ∧ (noFaults o.faults → noFaults o'.faults) := by
+  by_cases hlf : o.listFail = true
+  · exact ⟨o, by simp [cycleSkip, cycle, hlf], rfl, rfl, id⟩
+  · cases hl : s.lease with
+    | some tp =>
+      obtain ⟨fs', he, hn⟩ := processSkip_refines k tp sss o.faults s hst
+      refine ⟨⟨o.listFail, o.claimFail, fs'⟩, ?_, rfl, rfl, hn⟩
+      simp [cycleSkip, cycle, hlf, hl, he]
+    | none =>
+      cases hc : claim (sss.map (·.seg)) o.claimFail with
+      | none => exact ⟨o, by simp [cycleSkip, cycle, hlf, hl, hc], rfl, rfl, id⟩
+      | some tp =>
+        obtain ⟨fs', he, hn⟩ := processSkip_refines k tp sss o.faults { s with lease := some tp } hst
+        refine ⟨⟨o.listFail, o.claimFail, fs'⟩, ?_, rfl, rfl, hn⟩
+        simp [cycleSkip, cycle, hlf, hl, hc, he]
+
+/-- **C33 (safety, statistics fast path).** A loop that skips the download of a segment whose listed
+`MaxOffset` is strictly below the next offset to deliver keeps the invariant, for every history. -/
+theorem _root_.KafVerif.C33.checkpoint_covered_stat_skip (k : StoreKind) (sss : List SSeg) (hst : StatsOK sss)
+    (hs : SortedTP (sss.map (·.seg))) (ops : List Op) :
+    Covered k (sss.map (·.seg)) (ops.foldl (stepSkip skipLt k sss) init) := by
+  have h0 := init_covered k (sss.map (·.seg))
+  generalize init = s at h0 ⊢
+  induction ops generalizing s with
+  | nil => simpa using h0
+  | cons op ops ih =>
+    apply ih
+    cases op with
+    | cycle o =>
+      obtain ⟨o', he, _⟩ := cycleSkip_refines k sss o s hst
+      simp only [stepSkip]; rw [he]
+      exact cycle_covered k _ o' s hs h0
+    | leaseLost =>
+      intro t o ho hle
+      cases k <;> exact h0 t o ho hle
+
+/-- … and a failure-free cycle still delivers the whole leased partition. -/
+theorem _root_.KafVerif.C33.clean_cycle_delivers_stat_skip (k : StoreKind) (sss : List SSeg) (hst : StatsOK sss)
+    (hs : SortedTP (sss.map (·.seg))) (o : Oracle) (s : St) (hc : Covered k (sss.map (·.seg)) s) (tp : Nat)
+    (hlist : o.listFail = false) (hlease : leaseAfter (sss.map (·.seg)) o s = some tp) (hnf : noFaults o.faults) :
+    ∀ x ∈ offsOf tp (sss.map (·.seg)), (tp, x) ∈ (cycleSkip skipLt k sss o s).sink := by
+  obtain ⟨o', he, h1, h2, h3⟩ := cycleSkip_refines k sss o s hst
+  rw [he]
+  apply KafVerif.C33.clean_cycle_delivers k _ hs o' s hc tp (by rw [h1]; exact hlist) _ (h3 hnf)
+  unfold leaseAfter at hlease ⊢
+  rw [h2]; exact hlease
+
+/-- **the off-by-one fast path loses records**: `MaxOffset <= checkpoint+1` skips the segment that
+holds exactly the one next record (here the partition's first record, offset 0); the next segment's
+commit moves the checkpoint past it — in the very first, failure-free cycle. -/
+theorem _root_.KafVerif.C33.skip_le_loses_record :
+    ∃ (sss : List SSeg) (o : Oracle), StatsOK sss ∧ SortedTP (sss.map (·.seg)) ∧ noFaults o.faults ∧
+      ¬ Covered .mem (sss.map (·.seg)) (cycleSkip skipLe .mem sss o init) := by
+  refine ⟨[⟨⟨0, [0]⟩, some 0⟩, ⟨⟨0, [1]⟩, none⟩], ⟨false, [], []⟩, ?_, ?_, ?_, ?_⟩
+  · intro ss hss m hm o ho
+    simp at hss
+    rcases hss with rfl | rfl
+    · simp at hm ho; omega
+    · simp at hm
+  · intro tp
+    by_cases h : tp = 0
+    · subst h; decide
+    · have h' : (0 : Nat) ≠ tp := fun e => h e.symm
+      simp [offsOf, h']
+  · intro f hf; simp at hf
+  · intro h
+    have := h 0 0 (by decide) (by decide)
+    revert this; decide
+
+example : StatsOK [⟨⟨0, [0]⟩, some 0⟩, ⟨⟨0, [1, 2]⟩, some 5⟩, ⟨⟨0, [7]⟩, none⟩] := by
+  intro ss hss m hm o ho
+  simp at hss
+  rcases hss with rfl | rfl | rfl <;> simp at hm ho <;> omega
 
 end KafVerif.Processor
